@@ -118,6 +118,16 @@ def eval_trunc(case):
                 cc = CryptContext(schemes=[name], truncate_error=True, **opts)
                 do_hash = lambda s: cc.hash(s, **ctxkw)  # noqa: E731
                 do_verify = lambda s, h: cc.verify(s, h, **ctxkw)  # noqa: E731
+            elif mode in ("on_object_update", "on_object_copy"):
+                # the policy sits on the hasher OBJECT handed to the context; reconfiguring the context for something
+                # unrelated must not swap the object for the stock hasher of the same name
+                cc = CryptContext(schemes=[H.using(truncate_error=True, **kw)])
+                if mode.endswith("_update"):
+                    cc.update(deprecated=[])
+                else:
+                    cc = cc.copy(deprecated=[])
+                do_hash = lambda s: cc.hash(s, **ctxkw)  # noqa: E731
+                do_verify = lambda s, h: cc.verify(s, h, **ctxkw)  # noqa: E731
             elif mode in ("on_context_update", "off_context_update", "on_context_copy", "off_context_load"):
                 # the context-wide policy switched at run time: the LAST setting decides
                 opts = {f"{name}__{k}": v for k, v in kw.items()}
@@ -408,7 +418,7 @@ def run(ctx):
             for backend in backends_of(name):
                 if backend == "builtin" and HS.base_name(name) == "bcrypt":
                     continue
-                for mode in ("on_context_update", "off_context_update", "on_context_copy", "off_context_load"):
+                for mode in ("on_context_update", "off_context_update", "on_context_copy", "off_context_load", "on_object_update", "on_object_copy"):
                     for shape, p in (short[::3] if ctx.quick else short):
                         cases.append({"part": "trunc", "hasher": name, "backend": backend, "mode": mode, "shape": shape,
                                       "password": p, "form": "text", "encoding": None})
